@@ -78,6 +78,16 @@ def make_cfg(path: Path, *, spec: str | None = None, init: str | None = None, ne
     return path
 
 
+def make_model(d: Path, base: str, constants: dict, name: str = "MC", extra_defs: str = "", **kw):
+    """Write <d>/<name>.tla (EXTENDS base, constants as definitions) and <d>/<name>.cfg; returns (name, cfg).
+    Needed because cfg files cannot express tuples / records. Run with workdir=d."""
+    d.mkdir(parents=True, exist_ok=True)
+    defs = "\n".join(f"c_{k} == {tlaval.to_tla(v)}" for k, v in constants.items())
+    (d / f"{name}.tla").write_text(f"---- MODULE {name} ----\nEXTENDS {base}\n{defs}\n{extra_defs}\n====\n")
+    cfg = make_cfg(d / f"{name}.cfg", constants={k: f"<- c_{k}" for k in constants}, **kw)
+    return name, cfg
+
+
 _STATS = re.compile(r"(\d+) states generated, (\d+) distinct states found")
 _DEPTH = re.compile(r"The depth of the complete state graph search is (\d+)")
 _COV = re.compile(r"^<(\w+) line \d+, col \d+ to line \d+, col \d+ of module (\w+)>: (\d+):(\d+)", re.M)
@@ -90,12 +100,12 @@ def run(module: str, cfg: Path, *, workers: int | str = "auto", simulate: str | 
         depth: int | None = None, dump: Path | None = None, seed: int | None = None,
         env: dict | None = None, timeout: float = 1800, coverage: bool = True,
         cont: bool = False, extra=(), metadir: Path | None = None, dfs_queue: bool = False,
-        heap: str = "8g") -> TLCResult:
+        heap: str = "8g", workdir: Path | None = None) -> TLCResult:
     """Run TLC on /verif/spec/<module>.tla with cfg. Raises TLCError on machinery failure."""
     own_meta = metadir is None
     if own_meta:
         metadir = Path(tempfile.mkdtemp(prefix="tlcmeta_"))
-    cmd = ["java", "-XX:+UseParallelGC", f"-Xmx{heap}"]
+    cmd = ["java", "-XX:+UseParallelGC", f"-Xmx{heap}", f"-DTLA-Library={SPEC_DIR}"]
     if dfs_queue:
         cmd.append("-Dtlc2.tool.queue.IStateQueue=StateDeque")
     cmd += ["-cp", JAR, "tlc2.TLC", "-noGenerateSpecTE", "-metadir", str(metadir), "-workers", str(workers),
@@ -119,7 +129,7 @@ def run(module: str, cfg: Path, *, workers: int | str = "auto", simulate: str | 
         e.update({k: str(v) for k, v in env.items()})
     t0 = time.time()
     try:
-        p = subprocess.run(cmd, cwd=SPEC_DIR, env=e, capture_output=True, text=True, timeout=timeout)
+        p = subprocess.run(cmd, cwd=workdir or SPEC_DIR, env=e, capture_output=True, text=True, timeout=timeout)
     except subprocess.TimeoutExpired as exc:
         out = (exc.stdout or b"")
         out = out.decode() if isinstance(out, bytes) else out
@@ -154,7 +164,7 @@ def run(module: str, cfg: Path, *, workers: int | str = "auto", simulate: str | 
         if line.startswith("<<") or line.startswith('"'):
             try:
                 prints.append(tlaval.parse_value(line))
-            except ValueError:
+            except (ValueError, IndexError):
                 pass
     etrace = []
     if violated:
